@@ -3,7 +3,7 @@
 # maintenance change under which every property still holds) to /repo, run the checks of
 # all claimed properties, undo the change. Every check must exit 0: an exit 1 here is a
 # false alarm of the machinery, an exit 2 a harness error. Nothing is committed to /repo.
-# usage: tools/falsealarm.sh [tier=quick] [preserving/<set>/<k> ...]
+# usage: tools/falsealarm.sh [tier=quick|medium|thorough] [preserving/<set>/<k> ...]
 set -u
 ROOT="$(cd "$(dirname "${BASH_SOURCE[0]}")/.." && pwd)"
 cd "$ROOT"
@@ -20,7 +20,13 @@ for d in $DIRS; do
   line="$d"
   for id in $PROPS; do
     log=".scratch/falsealarm/$(echo "$d" | tr '/' '_').$id.$TIER.log"
-    ./check "$id" "$TIER" >"$log" 2>&1; rc=$?
+    if [ "$TIER" = medium ]; then
+      # thorough-tier generators (larger shapes, more configurations), a fraction of the runs
+      case $id in C01) r=5000;; C06) r=1500;; C07) r=4000;; C10) r=4000;; C14) r=20000;; C15) r=20000;; C17) r=6000;; *) r=2000;; esac
+      VERIF_RUNS=$r ./check "$id" thorough >"$log" 2>&1; rc=$?
+    else
+      ./check "$id" "$TIER" >"$log" 2>&1; rc=$?
+    fi
     case $rc in
       0) line="$line $id=ok";;
       1) line="$line $id=ALARM($(grep -o 'signature-summary: [^ ]*' "$log" | cut -d' ' -f2 | head -3 | tr '\n' ','))";;
